@@ -369,6 +369,19 @@ impl<'a> World<'a> {
     }
 
     fn record(&mut self, kind: ExKind, def: &TDef, out: &mut Vec<u8>) {
+        if let TDef::V9Opt { scope, opts, .. } = def {
+            // scope fields and option fields of V9 options data are opaque byte strings
+            for f in scope.iter().chain(opts.iter()) {
+                let n = usize::from(f.len);
+                let b = match self.rng.below(4) {
+                    0 => vec![0; n],
+                    1 => vec![0xff; n],
+                    _ => self.rng.bytes(n),
+                };
+                out.extend(b);
+            }
+            return;
+        }
         let fields: Vec<FSpec> = def.all_fields().into_iter().cloned().collect();
         for f in &fields {
             self.gen_value(kind, f, out);
@@ -393,7 +406,7 @@ impl<'a> World<'a> {
         wire::set(t.id, &body, pad)
     }
 
-    fn template_sets(&mut self, kind: ExKind, which: &[usize], e: usize) -> Vec<Vec<u8>> {
+    fn template_sets(&mut self, kind: ExKind, which: &[usize], e: usize, single: bool) -> Vec<Vec<u8>> {
         // group consecutive records of the same set kind into one set when multi-record
         // sets are enabled, else one set per record
         let mut sets = Vec::new();
@@ -409,7 +422,7 @@ impl<'a> World<'a> {
             };
             let mut body = wire::template_record(t.id, &t.def);
             let mut j = i + 1;
-            let multi_ok = kind == ExKind::V9 || self.cfg.multi_tpl_sets;
+            let multi_ok = kind == ExKind::V9 || (self.cfg.multi_tpl_sets && !single);
             while multi_ok && j < which.len() && self.ex[e].tpls[which[j]].def.is_options() == opt && self.rng.chance(2, 3) {
                 let t2 = self.ex[e].tpls[which[j]].clone();
                 body.extend(wire::template_record(t2.id, &t2.def));
@@ -528,7 +541,7 @@ impl<'a> World<'a> {
                 let tpl_first = !self.rng.chance(1, 8);
                 if tpl_first && !announce.is_empty() {
                     nrecords += announce.len();
-                    let s = self.template_sets(kind, &announce, e);
+                    let s = self.template_sets(kind, &announce, e, false);
                     sets.extend(s);
                 }
                 for i in data_plan {
@@ -543,7 +556,7 @@ impl<'a> World<'a> {
                 }
                 if !tpl_first && !announce.is_empty() {
                     nrecords += announce.len();
-                    let s = self.template_sets(kind, &announce, e);
+                    let s = self.template_sets(kind, &announce, e, false);
                     sets.extend(s);
                     self.stats.hit("template_after_data_in_packet");
                 }
@@ -572,7 +585,7 @@ impl<'a> World<'a> {
         if all.is_empty() {
             return vec![];
         }
-        let sets = self.template_sets(kind, &all, e);
+        let sets = self.template_sets(kind, &all, e, with_data);
         let n = all.len();
         let mut out = vec![self.assemble(e, sets, n)];
         if with_data {
@@ -770,6 +783,9 @@ impl<'a> World<'a> {
             // set per live template. Everything is delivered in order.
             self.now += 1000 * MS;
             for e in 0..self.ex.len() {
+                if matches!(self.ex[e].kind, ExKind::Attacker | ExKind::Odd) {
+                    continue;
+                }
                 for b in self.refresh_packets(e, true) {
                     self.send(e, b, false);
                 }
